@@ -103,13 +103,19 @@ contract('parso.parser.BaseParser._pop', params={'self': 'ref:BaseParser'},
          requires=['self.stack is not None', 'len(self.stack) >= 2', STACK_WF, NODES_NN],
          ensures=[NODES_NN, 'len(self.stack) == old(len(self.stack)) - 1',
                   'forall(lambda k: implies(0 <= k and k < len(self.stack), self.stack[k] is old(self.stack[k])), trigger=lambda k: self.stack[k])',
-                  'len(self.stack[len(self.stack) - 1].nodes) == old(len(self.stack[len(self.stack) - 2].nodes)) + 1'],
+                  'len(self.stack[len(self.stack) - 1].nodes) == old(len(self.stack[len(self.stack) - 2].nodes)) + 1',
+                  # the collapse convention (C05): an entry with exactly one node contributes that node itself, any other entry
+                  # contributes a new node (built by convert_node) -- as the last node of the entry below
+                  'implies(old(len(self.stack[len(self.stack) - 1].nodes)) == 1, '
+                  'self.stack[len(self.stack) - 1].nodes[len(self.stack[len(self.stack) - 1].nodes) - 1] is old(self.stack[len(self.stack) - 1].nodes[0]))',
+                  'implies(old(len(self.stack[len(self.stack) - 1].nodes)) != 1, '
+                  'new_object(self.stack[len(self.stack) - 1].nodes[len(self.stack[len(self.stack) - 1].nodes) - 1]))'],
          modifies=['parent', 'children'], frame_assumed=NODE_CTOR,
          lists=['self.stack', 'self.stack[len(self.stack) - 2].nodes'], props=['C02', 'C01'])
 
 contract('parso.parser.BaseParser.convert_node',
          params={'self': 'ref:BaseParser', 'nonterminal': 'str', 'children': 'list:ref:NodeOrLeaf'}, returns='ref:BaseNode',
-         trusted=True, ensures=['result is not None'], modifies=['parent', 'children'], lists=[],
+         trusted=True, ensures=['result is not None', 'new_object(result)'], modifies=['parent', 'children'], lists=[],
          note='dynamic dispatch: the override Parser.convert_node is verified against this postcondition (refines); lists=[] is '
               'the ownership assumption NODE_CTOR (only children lists of already popped subtrees change)')
 contract('parso.parser.BaseParser.convert_leaf',
